@@ -64,6 +64,7 @@ type Server struct {
 	referrerCache *cache.Cache[referrerKey, referrerResponses]
 	referrerMu    sync.Mutex // serializes the read-modify-write of referrers responses
 	rateLimit     *cache.Cache[string, *rateLimitEntry]
+	rateLimitMu   sync.Mutex // separate from mu, Shutdown waits on requests while holding mu
 }
 
 type rateLimitEntry struct {
@@ -157,7 +158,7 @@ func (s *Server) ServeHTTP(resp http.ResponseWriter, req *http.Request) {
 				ip = ip[:portSep]
 			}
 		}
-		s.mu.Lock()
+		s.rateLimitMu.Lock()
 		now := time.Now()
 		limit, err := s.rateLimit.Get(ip)
 		count := 1
@@ -178,7 +179,7 @@ func (s *Server) ServeHTTP(resp http.ResponseWriter, req *http.Request) {
 			}
 		}
 		s.rateLimit.Set(ip, limit)
-		s.mu.Unlock()
+		s.rateLimitMu.Unlock()
 		if count > s.conf.API.RateLimit {
 			// block, retry after 1 second
 			resp.Header().Add("Retry-After", "1")
